@@ -25,7 +25,7 @@ m = {
  "engines": [{"name": "cobweb-coq", "path": "/verif/check", "serves_properties": [c['property_id'] for c in checks],
               "kind_free_text": "Coq 8.16 theorems over an executable Gallina model (coq/), extracted to OCaml and run against the real crate through a Rust harness (differential correspondence), model-free monitors over implementation logs"}],
  "checks": checks,
- "notes": "Fix commits in /repo: 5f59689 (ticket matching, D1), c2640b3 (insertion guard, D2); see known_findings.json and DESIGN.md §7.",
+ "notes": "Fix commits in /repo: 5f59689 (ticket matching, D1), c2640b3 (insertion guard, D2); see known_findings.json and DESIGN.md §6 (findings) and §7 (seeded changes the checks catch; tools/seeded_matrix.sh re-runs them).",
  "not_applicable": na,
 }
 json.dump(m, open(os.path.join(ROOT, 'MANIFEST.json'), 'w'), indent=1)
